@@ -33,6 +33,7 @@ def expected_code(assort, ns, ne, nw, naff, ur, uc, N, r, maxit, nconv):
 
 
 def run(ctx):
+    gen.INTEGRAL[0] = True          # real-typed weights are integer-valued here: how fractional weights are rounded is C08's subject
     ctx.trusted = ['Coq 8.16.1 kernel; the five theorems are closed under the global context',
                    'correspondence K-VALID: the real entry point on argument tuples within +-1 of every boundary, all 8 variants, compared with the extracted model (status, error code, and the four output containers byte-identical to their prior contents after a throw)',
                    'K-WRITE: the real binary on invalid configurations: abnormal termination, output directory not created / not altered',
